@@ -772,77 +772,82 @@ func c41Traffic(c *mon.Ctx, idx int) bool {
 	if _, err := ping(); err != nil {
 		return fail(err)
 	}
-	now := l.clk.Now()
-	var set []mt.FutureSalt
-	for i := 0; i < 1+r.IntN(3); i++ {
-		vu := int(now.Unix()) + 400 + r.IntN(3000)
-		set = append(set, mt.FutureSalt{ValidSince: vu - 3600, ValidUntil: vu, Salt: int64(r.Uint64() | 1)})
-	}
-	if err := l.pushSync(tl(&mt.FutureSalts{Now: int(now.Unix()), Salts: set})); err != nil {
-		return fail(err)
-	}
-	future := map[int64]bool{}
-	for _, f := range set {
-		future[f.Salt] = true
-	}
-	done := make(chan error, 1)
-	go func() {
-		var out hResp
-		done <- l.conn.Invoke(context.Background(), &hReq{N: 1}, &out)
-	}()
-	f1, err := next(typReq)
-	if err != nil {
-		return fail(err)
-	}
-	if !future[f1.Salt] {
-		c.Inconclusive(fmt.Sprintf("c41 traffic %d: the future salt was not adopted before the request", idx))
-		return true
-	}
-	newSalt := int64(r.Uint64() | 1)
-	before, after := r.IntN(12), r.IntN(12)
-	junk := func(n int) {
-		for i := 0; i < n; i++ {
-			l.push(pongTL(int64(r.Uint64()), int64(r.Uint64())), false)
+	for round := 0; round < 5 && c.Violations() < 8; round++ {
+		now := l.clk.Now()
+		var set []mt.FutureSalt
+		for i := 0; i < 1+r.IntN(3); i++ {
+			vu := int(now.Unix()) + 400 + r.IntN(3000)
+			set = append(set, mt.FutureSalt{ValidSince: vu - 3600, ValidUntil: vu, Salt: int64(r.Uint64() | 1)})
 		}
-	}
-	junk(before)
-	l.push(badSaltTL(f1.MsgID, f1.SeqNo, newSalt), false)
-	junk(after)
-	var f2 *frame
-	select {
-	case f2 = <-l.notify:
-	case cerr := <-done:
-		select {
-		case f2 = <-l.notify:
-			done <- cerr
-		default:
-			c.Eval(1)
-			c.Violate("retry|no-retransmission-after-bad-server-salt|traffic", map[string]any{"traffic": idx, "invoke_error": fmt.Sprint(cerr), "frames": l.framesCopy()})
+		if err := l.pushSync(tl(&mt.FutureSalts{Now: int(now.Unix()), Salts: set})); err != nil {
+			return fail(err)
+		}
+		future := map[int64]bool{}
+		for _, f := range set {
+			future[f.Salt] = true
+		}
+		done := make(chan error, 1)
+		go func() {
+			var out hResp
+			done <- l.conn.Invoke(context.Background(), &hReq{N: int64(round + 1)}, &out)
+		}()
+		f1, err := next(typReq)
+		if err != nil {
+			return fail(err)
+		}
+		if !future[f1.Salt] {
+			c.Inconclusive(fmt.Sprintf("c41 traffic %d: the future salt was not adopted before the request", idx))
 			return true
 		}
-	case <-time.After(waitLimit):
-		return fail(errWatchdog)
-	}
-	c.Eval(1)
-	w := map[string]any{"traffic": idx, "future_salts": set, "new_salt": newSalt, "junk_before": before, "junk_after": after,
-		"first": f1, "retransmission": f2, "events": l.eventsCopy()}
-	switch {
-	case f2.TypeID != typReq || f2.MsgID != f1.MsgID:
-		c.Inconclusive(fmt.Sprintf("c41 traffic %d: unexpected frame %s", idx, f2.kind()))
-		return true
-	case f2.Salt == newSalt:
-		c.Distinct(fmt.Sprintf("traffic/junk-before-%d/after-%d", min(before, 3), min(after, 3)))
-		c.Add("traffic_retransmissions_with_new_salt", 1)
-	case f2.Salt == f1.Salt:
-		c.Violate("retry|retransmission-with-the-rejected-future-salt|concurrent-incoming-messages", w)
-	default:
-		c.Violate("retry|retransmission-without-new-salt|concurrent-incoming-messages", w)
-	}
-	l.push(resultTL(f1.MsgID, respTL(1)), false)
-	select {
-	case <-done:
-	case <-time.After(waitLimit):
-		return fail(errWatchdog)
+		newSalt := int64(r.Uint64() | 1)
+		before, after := r.IntN(40), r.IntN(40)
+		junk := func(n int) {
+			for i := 0; i < n; i++ {
+				l.push(pongTL(int64(r.Uint64()), int64(r.Uint64())), false)
+			}
+		}
+		junk(before)
+		l.push(badSaltTL(f1.MsgID, f1.SeqNo, newSalt), false)
+		junk(after)
+		var f2 *frame
+		select {
+		case f2 = <-l.notify:
+		case cerr := <-done:
+			select {
+			case f2 = <-l.notify:
+				done <- cerr
+			default:
+				c.Eval(1)
+				c.Violate("retry|no-retransmission-after-bad-server-salt|traffic", map[string]any{"traffic": idx, "invoke_error": fmt.Sprint(cerr), "frames": l.framesCopy()})
+				return true
+			}
+		case <-time.After(waitLimit):
+			return fail(errWatchdog)
+		}
+		c.Eval(1)
+		w := map[string]any{"traffic": idx, "round": round, "future_salts": set, "new_salt": newSalt, "junk_before": before, "junk_after": after,
+			"first": f1, "retransmission": f2, "events": l.eventsCopy()}
+		switch {
+		case f2.TypeID != typReq || f2.MsgID != f1.MsgID:
+			c.Inconclusive(fmt.Sprintf("c41 traffic %d: unexpected frame %s", idx, f2.kind()))
+			return true
+		case f2.Salt == newSalt:
+			c.Distinct(fmt.Sprintf("traffic/junk-before-%d/after-%d", min(before, 3), min(after, 3)))
+			c.Add("traffic_retransmissions_with_new_salt", 1)
+		case f2.Salt == f1.Salt:
+			c.Violate("retry|retransmission-with-the-rejected-future-salt|concurrent-incoming-messages", w)
+		default:
+			c.Violate("retry|retransmission-without-new-salt|concurrent-incoming-messages", w)
+		}
+		l.push(resultTL(f1.MsgID, respTL(int64(round+1))), false)
+		select {
+		case <-done:
+		case <-time.After(waitLimit):
+			return fail(errWatchdog)
+		}
+		if _, err := ping(); err != nil {
+			return fail(err)
+		}
 	}
 	return c.Violations() < 8
 }
